@@ -362,7 +362,7 @@ func cmdCheck(args []string) {
 		if wall == 0 {
 			wall = 10 * time.Minute
 			if *tier == "thorough" {
-				wall = 60 * time.Minute
+				wall = 30 * time.Minute
 			}
 		}
 		maxSteps := s.MaxSteps
